@@ -14,6 +14,8 @@ import copy
 import tlc
 from common import MachineryError, rng
 
+READY = True
+
 
 def _mk(cls, n):
     from pymtl3 import DefaultPassGroup
